@@ -604,6 +604,62 @@ fn handle(req: &J) -> Result<J, String> {
             }
             Ok(json!({"ok": true, "examples": out}))
         }
+        "roundtrip" => {
+            // C14: serialise a loaded (optionally optimised) rule and load the result again, three ways
+            let yaml = req["yaml"].as_str().ok_or("missing yaml")?;
+            let orig = match Rule::from_str(yaml) {
+                Ok(r) => r,
+                Err(e) => return Ok(json!({"ok": false, "err": format!("{}", e)})),
+            };
+            let rule = match load(req) {
+                Ok(r) => r,
+                Err(e) => return Ok(json!({"ok": false, "err": e})),
+            };
+            fn verdicts(on: &Rule, docs_of: &Rule) -> Vec<J> {
+                let mut out = vec![];
+                for list in [&docs_of.true_positives, &docs_of.true_negatives] {
+                    for ex in list {
+                        if let Some(m) = ex.as_mapping() {
+                            out.push(json!(on.matches(m)));
+                        }
+                    }
+                }
+                out
+            }
+            let describe = |r: Result<Rule, String>| -> J {
+                match r {
+                    Ok(r2) => json!({"ok": true, "rule": rule_json(&r2),
+                        "examples_equal": r2.true_positives == orig.true_positives && r2.true_negatives == orig.true_negatives,
+                        "verdicts": verdicts(&r2, &orig)}),
+                    Err(e) => json!({"ok": false, "err": e}),
+                }
+            };
+            let text = serde_yaml::to_string(&rule).map_err(|e| format!("to_string: {}", e));
+            let via_text = match &text {
+                Ok(t) => describe(Rule::from_str(t).map_err(|e| format!("{}", e))),
+                Err(e) => json!({"ok": false, "err": e}),
+            };
+            let via_value = match serde_yaml::to_value(&rule) {
+                Ok(v) => describe(Rule::from_value(v).map_err(|e| format!("{}", e))),
+                Err(e) => json!({"ok": false, "err": format!("to_value: {}", e)}),
+            };
+            let via_text_value = match &text {
+                Ok(t) => match serde_yaml::from_str::<serde_yaml::Value>(t) {
+                    Ok(v) => describe(Rule::from_value(v).map_err(|e| format!("{}", e))),
+                    Err(e) => json!({"ok": false, "err": format!("yaml: {}", e)}),
+                },
+                Err(e) => json!({"ok": false, "err": e}),
+            };
+            let from_value = match serde_yaml::from_str::<serde_yaml::Value>(yaml) {
+                Ok(v) => match Rule::from_value(v) {
+                    Ok(r) => rule_json(&r),
+                    Err(e) => json!({"err": format!("{}", e)}),
+                },
+                Err(e) => json!({"err": format!("yaml: {}", e)}),
+            };
+            Ok(json!({"ok": true, "orig": rule_json(&orig), "verdicts": verdicts(&orig, &orig), "serialised": text.unwrap_or_default(),
+                "text": via_text, "value": via_value, "text_value": via_text_value, "from_value": from_value}))
+        }
         "validate" => {
             let rule = match load(req) {
                 Ok(r) => r,
